@@ -99,7 +99,7 @@ const parseInitialInterval = time.Hour + 7
 
 // PARSE <conn> <endErr> <errWithLast> <cfg> <stop> <lastID> <chunks>
 // cfg: "-" none | "r:<max>" ReadConfig{MaxEventSize} | "c:<cap|n>:<max>[:w]" Connection.Buffer(buf, max); with ":w" the
-// stream is served to the connection's second attempt (the first gets a body that stops inside an event, after its id line: that ID
+// stream is served to the connection's second attempt (the first gets a body that stops inside an event, after its id and event lines: that ID and type
 // was never dispatched and does not count; the initial interval is 1 ms + 7 ns then): the buffer
 // settings hold for every attempt of a Connection
 func runParse(args []string) string {
@@ -162,7 +162,7 @@ func runParse(args []string) string {
 		HTTPClient: &http.Client{Transport: rtFunc(func(r *http.Request) (*http.Response, error) {
 			attempts++
 			if warm && attempts == 1 {
-				return &http.Response{StatusCode: 200, Header: http.Header{"Content-Type": {"text/event-stream"}}, Body: io.NopCloser(strings.NewReader("id: warm-up\ndata: x")), Request: r}, nil
+				return &http.Response{StatusCode: 200, Header: http.Header{"Content-Type": {"text/event-stream"}}, Body: io.NopCloser(strings.NewReader("id: warm-up\nevent: warm-up\ndata: x")), Request: r}, nil
 			}
 			if attempts > 1 && !(warm && attempts == 2) {
 				return nil, ctx.Err()
